@@ -233,3 +233,33 @@ package channeldb
 //@   bounds-safe
 //@   site call putOpenChannel: assert arg(1) == retn(fetchOpenChannel, 0) && retn(fetchOpenChannel, 1) == nil
 //@   site call fetchOpenChannel: assert arg(1) == addr(channel.FundingOutpoint)
+//@
+//@ // ---- reading the revocation state back: it is decoded into the channel object the CALLER holds (the chain watcher
+//@ // ---- discards the returned store and looks secrets up through its own channel object), from the stored bytes, field by field
+//@ func (c *ChannelStateDB) RemoteRevocationStore$1
+//@   props C06
+//@   site call fetchChanBucket: assert arg(1) == channel.IdentityPub && arg(2) == addr(channel.FundingOutpoint)
+//@   site call fetchChanRevocationState: assert arg(1) == channel && arg(0) == retn(fetchChanBucket, 0) && retn(fetchChanBucket, 1) == nil
+//@
+//@ func (c *ChannelStateDB) RemoteRevocationStore
+//@   props C06
+//@   site return nil: assert ret(View) == nil && result0 == channel.RevocationStore
+//@
+//@ func fetchChanRevocationState
+//@   props C06 C02
+//@   loop * havoc
+//@   site call Get: assert arg(1) == revocationStateKey
+//@   site call NewReader: assert arg(0) == ret(Get)
+//@   site call ReadElements nth 0: assert len(arg(1)) == 3 && dyndata(arg(1)[0]) == addr(channel.RemoteCurrentRevocation) &&
+//@        dyndata(arg(1)[1]) == addr(channel.RevocationProducer) && dyndata(arg(1)[2]) == addr(channel.RevocationStore) && arg(0) == ret(NewReader)
+//@   site call ReadElements nth 1: assert len(arg(1)) == 1 && dyndata(arg(1)[0]) == addr(channel.RemoteNextRevocation) && arg(0) == ret(NewReader) && ret(ReadElements, 0) == nil
+//@
+//@ // ---- the writer of the same record: same fields, same order, under the same key
+//@ func putChanRevocationState
+//@   props C06 C02
+//@   loop * havoc
+//@   site call WriteElements nth 0: assert len(arg(1)) == 3 && dyndata(arg(1)[0]) == boxof(channel.RemoteCurrentRevocation) &&
+//@        dyndata(arg(1)[1]) == dyndata(channel.RevocationProducer) && dyndata(arg(1)[2]) == dyndata(channel.RevocationStore)
+//@   site call WriteElements nth 1: assert len(arg(1)) == 1 && dyndata(arg(1)[0]) == boxof(channel.RemoteNextRevocation) && channel.RemoteNextRevocation != nil &&
+//@        ret(WriteElements, 0) == nil
+//@   site call Put: assert arg(1) == revocationStateKey && ret(WriteElements, 0) == nil
